@@ -61,6 +61,7 @@ let runners : (string * (z list -> z list)) list = [
   "mseq", run_mseq;
   "llo", run_llo;
   "guards", run_guards;
+  "car", run_car;
   "pipebuf", run_pipebuf;
   "qidx", run_qidx;
   "bq", run_bq;
